@@ -427,12 +427,26 @@ func mergeStanzas(fd *ast.FuncDecl) ([]string, error) {
 	if len(params) != 2 {
 		return nil, fmt.Errorf("%s does not take (base, override)", fd.Name.Name)
 	}
+	// `return &T{F: ..., G: ...}` at the end is the result object built and returned in one statement
+	body := fd.Body.List
+	if n := len(body); n > 0 {
+		if rs, ok := body[n-1].(*ast.ReturnStmt); ok && len(rs.Results) == 1 {
+			if ue, ok := rs.Results[0].(*ast.UnaryExpr); ok && ue.Op == token.AND {
+				if _, ok := ue.X.(*ast.CompositeLit); ok {
+					res := ast.NewIdent("mergedResult")
+					body = append(append([]ast.Stmt{}, body[:n-1]...),
+						&ast.AssignStmt{Lhs: []ast.Expr{res}, Tok: token.DEFINE, Rhs: []ast.Expr{ue}},
+						&ast.ReturnStmt{Results: []ast.Expr{res}})
+				}
+			}
+		}
+	}
 	var order, cross []string
 	worlds := [][2]bool{{false, false}, {false, true}, {true, false}, {true, true}}
 	// first pass: shape errors, and the fields assigned in any world (in the order of their first assignment)
 	for _, w := range worlds {
 		m := &mergeInterp{p: mergePkg, fn: fd.Name.Name, base: params[0], over: params[1], ovSet: w[0], baseSet: w[1], order: &order, cross: &cross}
-		if _, _, err := m.exec(fd.Body.List, map[string]sval{}, true, map[string]bool{}); err != nil {
+		if _, _, err := m.exec(body, map[string]sval{}, true, map[string]bool{}); err != nil {
 			return nil, err
 		}
 		if m.merged == "" {
@@ -449,7 +463,7 @@ func mergeStanzas(fd *ast.FuncDecl) ([]string, error) {
 	}
 	for _, w := range worlds {
 		m := &mergeInterp{p: mergePkg, fn: fd.Name.Name, base: params[0], over: params[1], ovSet: w[0], baseSet: w[1], order: &order, cross: &cross}
-		if _, _, err := m.exec(fd.Body.List, map[string]sval{}, true, map[string]bool{}); err != nil {
+		if _, _, err := m.exec(body, map[string]sval{}, true, map[string]bool{}); err != nil {
 			return nil, err
 		}
 		for _, f := range order {
@@ -501,6 +515,20 @@ func genStyleFields(repo string) (string, error) {
 		recursive := false
 		marked := map[string]bool{}
 		tested := map[string]bool{}
+		// locals that hold an entry of a map (seen := X[k]; _, seen := X[k]): testing them tests the entry
+		entryOf := map[string]string{}
+		ast.Inspect(g.Body, func(n ast.Node) bool {
+			if as, ok := n.(*ast.AssignStmt); ok && len(as.Rhs) == 1 {
+				if ie, ok := as.Rhs[0].(*ast.IndexExpr); ok {
+					for _, l := range as.Lhs {
+						if id, ok := l.(*ast.Ident); ok && id.Name != "_" {
+							entryOf[id.Name] = exprStringDeep(ie.X)
+						}
+					}
+				}
+			}
+			return true
+		})
 		ast.Inspect(g.Body, func(n ast.Node) bool {
 			switch x := n.(type) {
 			case *ast.CallExpr:
@@ -520,6 +548,11 @@ func genStyleFields(repo string) (string, error) {
 				ast.Inspect(x.Cond, func(c ast.Node) bool {
 					if ie, ok := c.(*ast.IndexExpr); ok {
 						tested[exprStringDeep(ie.X)] = true
+					}
+					if id, ok := c.(*ast.Ident); ok {
+						if x, ok := entryOf[id.Name]; ok {
+							tested[x] = true
+						}
 					}
 					return true
 				})
